@@ -109,3 +109,35 @@ Example c16_fin_from_heap :
   ts (fst (receive (sh_init true false) (mkF false ANone false true true))) = TCloseWait /\
   ts (fst (receive (fst (do_close (sh_init true false))) (mkF false ANone false true true))) = TClosing.
 Proof. split; vm_compute; reflexivity. Qed.
+
+(* ------------------------------------------------------------------ Unreliable: lifecycle lock (Model/Unrel.v) *)
+From Hop Require Import ConcUtil Unrel UnrelProofs.
+(* for every schedule of Write/Close callers, the initiation goroutine, the sender goroutine and the
+   peer's initiation frame: no send on the closed send queue and no second close of any lifecycle
+   channel ([upanic]); nothing is queued after the FIN; the queue is closed only in state closed with
+   no writer past its admission check; at most one caller runs the close procedure and lifecycleMu
+   has at most one holder *)
+Theorem c16_unreliable_lifecycle_safe : forall acc cap progs x, ureachable acc cap progs x ->
+  upanic (ushd x) = false /\ after_fin (ushd x) = false /\
+  (sq_closed (ushd x) = true -> st (ushd x) = UClosed /\ gcnt wsend (uths x) = 0) /\
+  (st (ushd x) = UClosed -> gcnt wsend (uths x) = 0) /\
+  gcnt closer (uths x) <= 1 /\ gcnt holder (uths x) <= 1.
+Proof. exact unrel_safe. Qed.
+Print Assumptions c16_unreliable_lifecycle_safe.
+
+(* what the model does NOT give (model-level observation, not reproduced on the real code, where it
+   needs the 1000-slot send queue to be filled before the initiation goroutine is scheduled): if
+   Close swaps the state after the peer's initiation but before initiate() has seen it, the sender
+   goroutine is never started; with a full send queue Close then blocks on its FIN while holding
+   lifecycleMu and nothing can move *)
+Theorem c16_unreliable_close_returns_refuted :
+  exists l x, urun (uinit false 2 [[UWrite; UWrite; UClose]]) l = Some x /\
+    st (ushd x) = UClosed /\ map upcv (uths x) = [C_fin] /\ snp (ushd x) = SN_none /\ sq (ushd x) = 2 /\
+    (forall a, a <> UInitTick -> ustep x a = None).
+Proof.
+  exists ([UInit; UPeerInit] ++ map UT [0;0;0;0; 0;0;0;0; 0;0]%nat ++ [UInit; UInit] ++ map UT [0;0]%nat).
+  eexists. split; [vm_compute; reflexivity|]. repeat split.
+  intros a Ha. destruct a as [i| | | |]; try reflexivity; try contradiction.
+  destruct i as [|i]; [reflexivity|]. vm_compute. destruct i; reflexivity.
+Qed.
+Print Assumptions c16_unreliable_close_returns_refuted.
